@@ -10,19 +10,19 @@ TRUST = ("Trusted base: TLC and the CommunityModules; the harness's projection o
 # id -> (engine, level text, level_note, technique, design_ref)
 CHECKS = {
  "C04": ("store",
-   "TLC model-checks Store.tla (exact index->weight map semantics; invariants S_Conserve, S_KeyAtRank, S_MergeOrderIrrelevant and the action properties) exhaustively for small constants; every history TLC generates (exhaustive tree + seeded long simulations) is replayed on real dense/sparse/paginated stores under many index embeddings with == comparison of every observable of every slot after every step; long recorded executions of the real stores (production-size indexes, page/array boundaries) are validated by TLC against the same specification.",
+   "TLC model-checks Store.tla (exact index->weight map semantics; invariants S_Conserve, S_KeyAtRank, S_MergeOrderIrrelevant and the action properties) exhaustively for small constants; every history TLC generates (exhaustive tree + seeded long simulations) is replayed on real dense/sparse/paginated stores under many index embeddings with == comparison of every observable of every slot after every step; long recorded executions of the real stores (production-size indexes, page/array boundaries) are validated by TLC against the same specification. The implementation-level models DenseImpl.tla (array, offset, min/max) and PagedImpl.tla (buffer, capacity, compaction trigger, pages) are checked by TLC to refine the abstract map and are bound to the code by validating the layout recorded through the build-tag hook with the real constants (a layout disagreement is reported as conformance drift, not as a violation).",
    TRUST + " Weights are dyadic so float sums are exact; model indexes 0..4 are embedded order-preservingly.",
    "TLA+ spec (Store.tla) + TLC model checking + model-based replay and TLC trace validation of the real stores", "6 (C04)"),
  "C05": ("store",
-   "TLC checks that the operational collapsing design (sticky flag, window, same-kind merge fast path) equals the declarative fold for every history (S_Fold, S_Span, S_Conserve, S_CollapsedMeaning, S_FastMergeIsGeneric) for pairs of kinds/limits; generated histories are replayed on real CollapsingLowest/HighestDenseStore with every partner kind (panics are disagreements); recorded executions with N in {1,2,3,8,128,2048} are validated by TLC, including the allocated array length (layout hook) <= N.",
+   "TLC checks that the operational collapsing design (sticky flag, window, same-kind merge fast path) equals the declarative fold for every history (S_Fold, S_Span, S_Conserve, S_CollapsedMeaning, S_FastMergeIsGeneric) for pairs of kinds/limits; generated histories are replayed on real CollapsingLowest/HighestDenseStore with every partner kind (panics are disagreements); recorded executions with N in {1,2,3,8,128,2048} are validated by TLC, including the allocated array length (layout hook) <= N; the array-level model DenseImpl.tla (extendRange/adjust/shiftCounts with Go slice-bounds checks) is checked to refine the abstract stores without out-of-bounds access (it reproduces the F3 panic when the repair is switched off) and its layout is validated against recorded layouts with the real overhead 64.",
    TRUST + " The sketch-level accuracy clause of C05 is exercised by the sketch pipeline (C12) with collapsing stores.",
    "TLA+ spec (Store.tla operational collapsing vs declarative fold) + TLC + replay/trace validation on the real collapsing stores", "6 (C05)"),
 }
 
 SK = "TLA+ spec (Sketch.tla) + TLC model checking + TLC-generated behaviours replayed on real sketches"
 CHECKS.update({
- "C01": ("sketch", "TLC checks K_Rank/K_Ends/K_Monotone of Sketch.tla over every multiset of value tokens added one at a time; every generated history is replayed on real sketches (3 mapping kinds x alphas x dense/sparse/paginated x key embeddings at 1.0, the smallest and the largest indexable bins) and after every step each q=a/8 answer must be within alpha of a token holding the order statistic of rank floor or ceil of q(n-1) in the specification's bag.",
-   TRUST + " Values are bin-extreme float64 found by bisection on the real Index(); numeric predicate |y-x| <= alpha|x| + 2e-12|x| (abstraction relation R). q on the dyadic grid a/8.", SK, "6 (C01)"),
+ "C01": ("sketch", "TLC checks K_Rank/K_Ends/K_Monotone of Sketch.tla over every multiset of value tokens added one at a time; every generated history is replayed on real sketches (3 mapping kinds x alphas x dense/sparse/paginated x key embeddings at 1.0, the smallest and the largest indexable bins) and after every step each q=a/8 answer must be within alpha of a token holding the order statistic of rank floor or ceil of q(n-1) in the specification's bag. Direction B: executions of real sketches with thousands of values (the test generators' shapes, hundreds of bins) are recorded with quantile queries at EVERY k/(n-1) and both float neighbours (exact floor/ceil ranks by math/big) and validated by TLC (Trace_Sketch.tla).",
+   TRUST + " Values are bin-extreme float64 found by bisection on the real Index(); numeric predicate |y-x| <= alpha|x| + 2e-12|x| (abstraction relation R). q on the dyadic grid a/8 in direction A, arbitrary float64 q in direction B.", SK + " + TLC trace validation of recorded sketch executions", "6 (C01)"),
  "C02": ("sketch", "TLC checks K_Merge/K_Content/K_OnlyReceiverChanges for every interleaving of Add/Merge/Clear over 3 sketches; each generated history is replayed on real sketches (all mixes of non-collapsing store kinds, mappings, alphas; both variants) and after every merge the receiver must answer bit-for-bit like a single fresh sketch fed the multiset the specification attributes to it, while every non-receiver keeps its snapshot.",
    TRUST + " The union multiset is the specification's ghost bag; the comparison is real sketch vs real sketch.", SK + " (twin sketch fed the specification's bag)", "6 (C02)"),
  "C10": ("sketch", "TLC checks X_Stats (exact count/min/max are functions of the absorbed multiset) over histories of the exact variant (adds incl. weight 0 and refused values, merge, copy, clear, reweight, encode/decode); generated histories are replayed on real DDSketchWithExactSummaryStatistics: count/min/max == the specification's, sum within 16*2^-53*sum|v*w| of the exact rational sum (math/big), quantiles == plain answers clamped to [min,max].",
